@@ -27,6 +27,7 @@ from toqito.state_props import (is_ensemble, is_mixed, is_mutually_orthogonal, i
                                 is_unextendible_product_basis)
 
 from ..common import InfraError
+from ..exact import Pure, case_rng, describe, present_nd, present_obj
 
 RULE = ("predicates: for every predicate, size 1..6 and field (real / complex) the seeded generator builds exact matrices over Q[i] "
         "(Gaussian integers, rational unitaries from permutations, phases in {+-1,+-i}, Pythagorean Givens rotations and Cayley transforms, "
@@ -39,7 +40,11 @@ RULE = ("predicates: for every predicate, size 1..6 and field (real / complex) t
         "rank factorisation) computed independently in Python with Fractions and accepted by a checker proved sound in Lean. "
         "helpers: Gaussian-integer operands (exact equality with the Lean mirror), relation residuals for float outputs. "
         "non-trivial = size >= 2 and the matrix is neither diagonal nor a multiple of the identity (predicates), "
-        "at least two operands / rectangular operand with both sides > 1 (helpers); distinct = hash of the exact input")
+        "at least two operands / rectangular operand with both sides > 1 (helpers); distinct = hash of the exact input. "
+        "Presentation: besides the dtype drawn for a predicate's matrix (int64 / float64 / complex128 as the values allow), every ndarray handed to toqito "
+        "(matrices, second matrices B, each vector / operator of a list independently, helper operands) is a re-presentation of the same values determined by the "
+        "case: C / Fortran / strided / permuted-stride layout and, for list elements, second arguments and helper operands, float64 / int64 where the values "
+        "allow — so pairs and lists mix real and complex dtypes; after every call the arguments (arrays, list objects, elements) are compared with a deep snapshot")
 ASSUMPTIONS = [
     "rounding an exact rational matrix to float64 moves every entry by at most 2^-53 relative, far below the margin 1e-3*(1+scale) and the library tolerances",
     "float64 arithmetic on the small (Gaussian) integer operands of the helper operations is exact (entries < 2^8, at most 3 factors, at most 36 terms)",
@@ -428,6 +433,15 @@ def quiet(fn, *a, **k):
     """call toqito, swallowing its prints"""
     with contextlib.redirect_stdout(io.StringIO()):
         return fn(*a, **k)
+
+
+def impure(ctx, guard, fn, desc, pres=None):
+    """purity assertion: `guard = Pure(args...)` was taken before the call on exactly the objects handed to toqito"""
+    why = guard.modified()
+    if why:
+        ctx.violation(f"{fn}: caller's arguments were modified", {"function": fn, "args": desc, "modified": why, "presentation": pres})
+        return True
+    return False
 
 
 # ------------------------------------------------------------------------------------------------
@@ -1152,19 +1166,22 @@ def ask_pred(ctx, name, A, args, label, kind, expect=None, transformed=None, dty
         else:
             raise InfraError(f"generator for {name} ({label}) produced a matrix the Lean decider calls {lv}: {desc}")
     M, dt = _np_of(rng, A, spec.get("real_only", False))
+    prng = case_rng("c16/pred", name, desc["A"], desc["args"])      # presentation: a function of the exact input alone
+    M = present_nd(prng, M, allow_dtype=False)                        # the dtype was drawn above (respecting real_only); the layout varies here
     a2 = dict(args)
     if "B" in args:
-        a2["B_np"] = args["B"].to_np(force_complex=np.iscomplexobj(M))
-    Mc = M.copy()
+        # second matrix: its own layout and dtype (a real-valued B arrives as complex128, float64 or int64 whatever M is: mixed pairs)
+        a2["B_np"] = present_nd(prng, args["B"].to_np(force_complex=True))
+    guard = Pure(M, a2.get("B_np"))
     try:
         iv = quiet(spec["impl"], M, a2)
         iv = "yes" if bool(iv) else "no"
     except Exception as e:  # noqa: BLE001
         iv = f"raise:{type(e).__name__}:{str(e)[:80]}"
     desc["dtype"] = dt
+    desc["presentation"] = describe([M, a2.get("B_np")])
     ctx.case(desc, (not A.is_trivial()), f"pred/{name}/{kind}{'/T' if transformed else ''}")
-    if not np.array_equal(M, Mc):
-        ctx.violation(f"is_{name} mutated its argument", {"function": f"is_{name}", "args": desc})
+    impure(ctx, guard, f"is_{name}", desc)
     if lv.startswith("reject"):
         ok = iv.startswith("raise:ValueError")
     else:
@@ -1243,7 +1260,7 @@ def _vec_list(rng, V: QM, form=None, scales=None):
 SET_IMPL = {
     "linearly_independent": lambda vl: is_linearly_independent(vl),
     "mutually_orthogonal": lambda vl: is_mutually_orthogonal(vl),
-    "orthonormal": lambda vl: is_orthonormal(np.array([np.asarray(v).reshape(-1) for v in vl])),
+    "orthonormal": lambda arr: is_orthonormal(arr),
 }
 
 
@@ -1273,11 +1290,19 @@ def ask_set(ctx, name, V, label, kind, expect=None, transformed=None):
             raise InfraError(f"linear independence verdict {lv} of the exact decider is not confirmed by the verified certificate checker: {desc}")
     vl, form = _vec_list(ctx.rng, V)
     desc["form"] = form
+    prng = case_rng("c16/set", name, desc["V"], form)
+    if name == "orthonormal":
+        arg = present_nd(prng, np.array([np.asarray(v).reshape(-1) for v in vl]))     # is_orthonormal takes one 2-d array (rows = vectors)
+    else:
+        arg = present_obj(prng, vl)                                                    # each vector independently: mixed dtypes / strided views
+    guard = Pure(arg)
     try:
-        iv = "yes" if bool(quiet(SET_IMPL[name], vl)) else "no"
+        iv = "yes" if bool(quiet(SET_IMPL[name], arg)) else "no"
     except Exception as e:  # noqa: BLE001
         iv = f"raise:{type(e).__name__}:{str(e)[:80]}"
+    desc["presentation"] = describe(arg)
     ctx.case(desc, V.shape[0] >= 2 and V.shape[1] >= 2, f"setpred/{name}/{kind}{'/T' if transformed else ''}")
+    impure(ctx, guard, f"is_{name}", desc)
     ok = iv.startswith("raise:ValueError") if lv.startswith("reject") else iv == lv
     if not ok:
         ctx.violation(f"is_{name}: toqito says {iv}, the definition (exact decider) says {lv} on a set built as '{label}' [{kind}]",
@@ -1380,11 +1405,15 @@ def ask_mub(ctx, V, s, label, kind, expect=None, transformed=None):
             return None
     vl, form = _vec_list(ctx.rng, V, scales=s)
     desc["form"] = form
+    vl = present_obj(case_rng("c16/mub", desc["V"], desc["s"], form), vl)
+    guard = Pure(vl)
     try:
         iv = "yes" if bool(is_mutually_unbiased_basis(vl)) else "no"
     except Exception as e:  # noqa: BLE001
         iv = f"raise:{type(e).__name__}:{str(e)[:80]}"
+    desc["presentation"] = describe(vl)
     ctx.case(desc, d >= 2 and n >= 2 * d, f"mub/d={d}/{kind}{'/T' if transformed else ''}")
+    impure(ctx, guard, "is_mutually_unbiased_basis", desc)
     if iv != lv:
         ctx.violation(
             f"is_mutually_unbiased_basis: toqito says {iv}, the documented definition says {lv} ({label}); cross-overlap-only reading says {lcode}",
@@ -1482,13 +1511,20 @@ def ask_upb(ctx, dims, local, label, kind, expect=None, normalise=True):
         if normalise:
             v = v / np.linalg.norm(v)
         vl.append(v)
+    vl0 = vl
+    vl = present_obj(case_rng("c16/upb", list(dims), local, normalise), vl)     # the harness keeps vl0 for the witness check below
+    pdims = list(dims)
+    guard = Pure(vl, pdims)
     try:
-        res = quiet(is_unextendible_product_basis, vl, list(dims))
+        res = quiet(is_unextendible_product_basis, vl, pdims)
         iv = "yes" if bool(res[0]) else "no"
         wit = res[1]
     except Exception as e:  # noqa: BLE001
         iv, wit = f"raise:{type(e).__name__}:{str(e)[:80]}", None
+    desc["presentation"] = describe(vl)
     ctx.case(desc, len(local) >= 2, f"upb/{label.split(' ')[0]}/{kind}")
+    impure(ctx, guard, "is_unextendible_product_basis", desc)
+    vl = vl0
     if iv != lv:
         ctx.violation(f"is_unextendible_product_basis: toqito says {iv}, exact search says {lv} ({label})",
                       {"function": "is_unextendible_product_basis", "args": desc, "impl": iv, "model": lv, "theorem": "upbV (Toq.MatrixPreds)"})
@@ -1572,12 +1608,15 @@ def ask_list_pred(ctx, name, mats, label, kind, expect=None):
     if expect is not None and lv != expect:
         raise InfraError(f"generator for {name} ({label}) produced a list the Lean decider calls {lv}")
     fn = is_pure if name == "pure_list" else is_ensemble
-    arrs = [m.to_np() for m in mats]
+    arrs = present_obj(case_rng("c16/list", name, desc["As"]), [m.to_np(force_complex=True) for m in mats])    # real-valued states: complex128, float64 or int64
+    guard = Pure(arrs)
     try:
         iv = "yes" if bool(quiet(fn, arrs)) else "no"
     except Exception as e:  # noqa: BLE001
         iv = f"raise:{type(e).__name__}:{str(e)[:80]}"
+    desc["presentation"] = describe(arrs)
     ctx.case(desc, len(mats) >= 2 and mats[0].shape[0] >= 2, f"listpred/{name}/{kind}")
+    impure(ctx, guard, fn.__name__, desc)
     if iv != lv:
         ctx.violation(f"{fn.__name__} (list): toqito says {iv}, the definition says {lv} ({label})",
                       {"function": fn.__name__, "args": desc, "impl": iv, "model": lv, "theorem": "pureV / ensembleV (Toq.MatrixPreds)"})
@@ -1672,22 +1711,30 @@ def _safe(fn, *a, **k):
         return ("raise", f"{type(e).__name__}: {str(e)[:120]}")
 
 
+def _psafe(ctx, prng, desc, fn, *a, **k):
+    """_safe on re-presentations of the ndarray arguments (nested lists element-wise; integer / float / complex as the values allow), with
+    the purity assertion; prng None: the arguments as they are"""
+    pa = present_obj(prng, tuple(a))
+    guard = Pure(*pa, **k)
+    out = _safe(fn, *pa, **k)
+    impure(ctx, guard, getattr(fn, "__name__", "helper"), desc, describe(list(pa)))
+    return out
+
+
 def check_vec_unvec(ctx, r, c, cplx):
     rng = ctx.rng
     X = rint(rng, (r, c), cplx)
     desc = {"op": "vec/unvec", "X": gmat_json(X)}
     ctx.case(desc, r >= 2 and c >= 2 and r != c, "ops/vec")
-    Xc = X.copy()
-    v = _safe(vec, X)
+    prng = case_rng("c16/vec", desc)
+    v = _psafe(ctx, prng, desc, vec, X)
     mv = ctx.lean().ask("c16_vec", {"A": gmat_json(X)})
     if v[0] != "ok" or not same_as_model(v[1], mv, (r * c, 1)):
         return viol(ctx, "vec differs from column stacking", "vec", desc, str(v)[:300], mv, "vec_apply")
-    if not np.array_equal(X, Xc):
-        viol(ctx, "vec mutated its argument", "vec", desc)
     # unvec with the explicit shape, on the column vector, the flat vector and a list
     forms = [("col", v[1]), ("flat", v[1].reshape(-1)), ("list", [complex(x) if cplx else x for x in v[1].reshape(-1).tolist()])]
     for fname, arg in forms:
-        u = _safe(unvec, arg, [r, c])
+        u = _psafe(ctx, prng, {**desc, "form": fname}, unvec, arg, [r, c])
         mu = ctx.lean().ask("c16_unvec", {"v": gmat_json(np.asarray(arg).reshape(1, -1)), "shape": [r, c]})
         ctx.count("ops/unvec/" + fname)
         if u[0] != "ok" or "reject" in mu or not same_as_model(u[1], mu, (r, c)):
@@ -1695,7 +1742,7 @@ def check_vec_unvec(ctx, r, c, cplx):
         elif not np.array_equal(u[1], X):
             viol(ctx, "unvec(vec(X), shape) != X", "unvec", {**desc, "form": fname}, str(u[1])[:300], None, "unvec_vec")
     # default shape: square iff r == c
-    u = _safe(unvec, v[1])
+    u = _psafe(ctx, prng, desc, unvec, v[1])
     mu = ctx.lean().ask("c16_unvec", {"v": gmat_json(v[1].reshape(1, -1)), "shape": None})
     if "reject" in mu:
         if u[0] == "ok":
@@ -1706,7 +1753,8 @@ def check_vec_unvec(ctx, r, c, cplx):
         viol(ctx, "unvec(vec(X)) != X for square X", "unvec", desc, str(u[1])[:300], None, "unvec_default_vec")
     # vec(unvec(w)) = w
     w = rint(rng, (r * c, 1), cplx)
-    back = _safe(lambda: vec(unvec(w, [r, c])))
+    pw = present_nd(prng, w)
+    back = _safe(lambda: vec(unvec(pw, [r, c])))
     if back[0] != "ok" or not np.array_equal(back[1], w):
         viol(ctx, "vec(unvec(w, shape)) != w", "vec/unvec", {"w": gmat_json(w), "shape": [r, c]}, str(back)[:300], None, "vec_unvec")
 
@@ -1716,8 +1764,10 @@ def check_vec_mul_kron(ctx, m, n, p, q, cplx):
     A, X, B = rint(rng, (m, n), cplx, 7), rint(rng, (n, p), cplx, 7), rint(rng, (p, q), cplx, 7)
     desc = {"op": "vec(AXB)", "A": gmat_json(A), "X": gmat_json(X), "B": gmat_json(B)}
     ctx.case(desc, min(m, n, p, q) >= 2 and len({m, n, p, q}) >= 2, "ops/vec_mul_kron")
-    lhs = _safe(lambda: vec(A @ X @ B))
-    rhs = _safe(lambda: tensor(B.T, A) @ vec(X))
+    prng = case_rng("c16/vec_mul_kron", desc)
+    pA, pX, pB = present_nd(prng, A), present_nd(prng, X), present_nd(prng, B)
+    lhs = _safe(lambda: vec(pA @ pX @ pB))
+    rhs = _safe(lambda: _psafe(ctx, prng, desc, tensor, pB.T, pA)[1] @ _psafe(ctx, prng, desc, vec, pX)[1])
     mk = ctx.lean().ask("c16_tensor", {"form": "many", "mats": [gmat_json(B.T), gmat_json(A)]})
     mr = ctx.lean().ask("c16_mul", {"A": mk, "B": ctx.lean().ask("c16_vec", {"A": gmat_json(X)})})
     if lhs[0] != "ok" or rhs[0] != "ok" or not np.array_equal(lhs[1], rhs[1]):
@@ -1743,9 +1793,17 @@ def check_tensor(ctx, form, k, cplx, vectors):
     if form == "many" and k == 1 and vectors == "1d":
         return  # a single 1-d array is iterated over its scalar entries: not a documented form
     ops = _rand_operands(rng, k, cplx, vectors)
+    if cplx and k >= 2:
+        # operand lists that mix real-valued and complex operands (a real one most often in front): decided by a stream derived from
+        # the operands, so that the data stream ctx.rng is as before; a real-valued operand is then also handed over as float64 / int64
+        mrng = case_rng("c16/tensor/mix", form, vectors, [gmat_json(o) for o in ops])
+        if mrng.integers(2):
+            j = 0 if mrng.integers(3) else int(mrng.integers(k))
+            ops[j] = ops[j].real + 0j
     desc = {"op": "tensor", "form": form, "operands": [gmat_json(o) for o in ops], "shapes": [list(o.shape) for o in ops]}
     ctx.case(desc, k >= 2 and sum(1 for o in ops if o.size > 1) >= 2, f"ops/tensor/{form}/k={min(k, 4)}/{vectors}")
-    out = _safe(tensor, list(ops)) if form == "list" else _safe(tensor, *ops)
+    prng = case_rng("c16/tensor", desc)
+    out = _psafe(ctx, prng, desc, tensor, list(ops)) if form == "list" else _psafe(ctx, prng, desc, tensor, *ops)
     mo = ctx.lean().ask("c16_tensor", {"form": form, "mats": [gmat_json(o) for o in ops]})
     if "reject" in mo:
         if not (out[0] == "raise" and out[1].startswith("ValueError")):
@@ -1779,13 +1837,14 @@ def check_tensor_power(ctx, n, cplx, vectors):
         A = _rand_operands(rng, 1, cplx, vectors)[0]
     desc = {"op": "tensor", "form": "power", "A": gmat_json(A), "shape": list(A.shape), "n": n}
     ctx.case(desc, n >= 2 and A.size > 1, f"ops/tensor/power/n={n}")
-    out = _safe(tensor, A, n)
+    prng = case_rng("c16/tensor_power", desc)
+    out = _psafe(ctx, prng, desc, tensor, A, n)
     mo = ctx.lean().ask("c16_tensor", {"form": "power", "mats": [gmat_json(A)], "n": n})
     if out[0] != "ok" or not same_as_model(out[1], mo):
         return viol(ctx, "tensor(A, n) differs from the model's fast_exp", "tensor", desc, str(out)[:300], mo, "tensor_pow_eq_iterate")
     if n >= 1:
         it = ctx.lean().ask("c16_kron_pow", {"A": gmat_json(A), "n": n})
-        rep = _safe(tensor, [A] * n)
+        rep = _psafe(ctx, prng, desc, tensor, [A] * n)
         if rep[0] != "ok" or not np.array_equal(rep[1], out[1]) or not same_as_model(out[1], it):
             viol(ctx, "tensor(A, n) differs from the n-fold repeated product", "tensor", desc, str(out[1])[:200], it, "tensor_pow_eq_iterate")
     if n == 0 and not (out[1].shape == (1, 1) and out[1][0, 0] == 1):
@@ -1801,13 +1860,14 @@ def check_gram(ctx, d, n, cplx, rank=None):
     vs = [V[:, k].copy() for k in range(n)]
     desc = {"op": "gram", "V": gmat_json(V), "rank_cap": rank}
     ctx.case(desc, d >= 2 and n >= 2, f"ops/gram/{'cplx' if cplx else 'real'}")
-    G = _safe(vectors_to_gram_matrix, vs)
+    prng = case_rng("c16/gram", desc)
+    G = _psafe(ctx, prng, desc, vectors_to_gram_matrix, vs)
     mg = ctx.lean().ask("c16_gram", {"V": gmat_json(V)})
     if G[0] != "ok" or not same_as_model(G[1], mg, (n, n)):
         return viol(ctx, "vectors_to_gram_matrix differs from V^H V", "vectors_to_gram_matrix", desc, str(G)[:300], mg, "gram_apply")
     Gm = np.asarray(G[1])
     # round trip: the vectors returned for G must have Gram matrix G
-    back = _safe(vectors_from_gram_matrix, Gm.astype(complex) if cplx else Gm.astype(float))
+    back = _psafe(ctx, prng, desc, vectors_from_gram_matrix, Gm.astype(complex) if cplx else Gm.astype(float))
     if back[0] != "ok":
         return viol(ctx, "vectors_from_gram_matrix raised on a Gram matrix", "vectors_from_gram_matrix", desc, back[1])
     ws = [np.asarray(w).reshape(-1) for w in back[1]]
@@ -1831,10 +1891,11 @@ def check_to_density(ctx, shape, cplx):
     X = rint(rng, tuple(shape), cplx, 6)
     desc = {"op": "to_density_matrix", "shape": list(shape), "X": gmat_json(X) if X.ndim <= 2 else None}
     ctx.case(desc, X.size >= 2, f"ops/to_density/ndim={len(shape)}")
-    out = _safe(to_density_matrix, X)
+    prng = case_rng("c16/to_density", desc, [int(t) for t in np.real(X).reshape(-1)], [int(t) for t in np.imag(X).reshape(-1)])
+    out = _psafe(ctx, prng, desc, to_density_matrix, X)
     flat = X.reshape(-1)
     mo = ctx.lean().ask("c16_to_density", {"shape": list(shape), "re": [int(x) for x in np.real(flat)], "im": [int(x) for x in np.imag(flat)]})
-    dm = _safe(calculate_vector_matrix_dimension, X)
+    dm = _psafe(ctx, prng, desc, calculate_vector_matrix_dimension, X)
     md = ctx.lean().ask("c16_calc_dim", {"shape": list(shape)})
     if "reject" in mo:
         if not (out[0] == "raise" and out[1].startswith("ValueError")):
@@ -1850,9 +1911,9 @@ def check_to_density(ctx, shape, cplx):
 
 def check_same_dim(ctx, shapes):
     items = [np.zeros(tuple(s)) for s in shapes]
-    out = _safe(has_same_dimension, items)
-    mo = ctx.lean().ask("c16_same_dim", {"shapes": [list(s) for s in shapes]})
     desc = {"op": "has_same_dimension", "shapes": [list(s) for s in shapes]}
+    out = _psafe(ctx, case_rng("c16/same_dim", desc), desc, has_same_dimension, items)
+    mo = ctx.lean().ask("c16_same_dim", {"shapes": [list(s) for s in shapes]})
     ctx.case(desc, len(shapes) >= 2, "ops/has_same_dimension")
     if "reject" in mo:
         if not (out[0] == "raise" and out[1].startswith("ValueError")):
@@ -1870,9 +1931,9 @@ def check_majorizes_vec(ctx, a, b, form):
         pa, pb = [int(x) for x in a], [int(x) for x in b]
     else:
         pa, pb = fa, fb
-    out = _safe(majorizes, pa, pb)
-    mo = ctx.lean().ask("c16_majorizes", {"a": [_rj(x) for x in a], "b": [_rj(x) for x in b]})
     desc = {"op": "majorizes", "a": [str(Fraction(x)) for x in a], "b": [str(Fraction(x)) for x in b], "form": form}
+    out = _psafe(ctx, case_rng("c16/majorizes", desc), desc, majorizes, pa, pb)      # array form: strided views / int64 where the values allow
+    mo = ctx.lean().ask("c16_majorizes", {"a": [_rj(x) for x in a], "b": [_rj(x) for x in b]})
     ctx.case(desc, len(a) >= 2 and len(b) >= 2, f"ops/majorizes/{'padded' if len(a) != len(b) else 'same_len'}/{mo['v']}")
     if out[0] != "ok" or bool(out[1]) != mo["v"]:
         viol(ctx, "majorizes differs from the partial-sum criterion", "majorizes", desc, str(out)[:200], mo, "majorizes_iff_partial_sums")
@@ -1937,7 +1998,8 @@ def run_norms(ctx, count):
         ctx.case(desc, m >= 2 and n >= 2 and not A.is_trivial(), "ops/norms")
         if float(np.abs(sv - sf).max()) > 1e-9 * scale:
             raise InfraError(f"known-singular-value generator is off: {sv} vs {sf}")
-        tn = _safe(trace_norm, M)
+        prng = case_rng("c16/norms", desc)
+        tn = _psafe(ctx, prng, desc, trace_norm, M)
         if tn[0] != "ok" or abs(float(tn[1]) - float(sum(s))) > 1e-9 * scale * k:
             viol(ctx, "trace_norm differs from the sum of the singular values", "trace_norm", desc, str(tn)[:100], float(sum(s)), "definition: sum of singular values")
         for kk in sorted(set([1, k, int(rng.integers(1, k + 1)), k + 1])):
@@ -1945,7 +2007,7 @@ def run_norms(ctx, count):
                 top = sf[:kk]
                 want = float(top.max()) if p == np.inf else float((top ** p).sum() ** (1.0 / p))
                 want_svd = float(np.linalg.norm(sv[:kk], ord=p))
-                got = _safe(kp_norm, M, kk, p)
+                got = _psafe(ctx, prng, desc, kp_norm, M, kk, p)
                 ctx.count(f"ops/kp_norm/p={p}/{'frobenius_branch' if (kk >= k and p == 2) else 'svd_branch'}")
                 if got[0] != "ok" or abs(float(got[1]) - want) > 1e-9 * scale * k or abs(float(got[1]) - want_svd) > 1e-9 * scale * k:
                     viol(ctx, f"kp_norm(k={kk}, p={p}) differs from the p-norm of the k largest singular values", "kp_norm",
@@ -1957,7 +2019,7 @@ def run_norms(ctx, count):
         if all(abs(x) >= Fraction(1, 2) for x in ps):
             m2 = int(rng.integers(len(t), 7))
             B = known_sv_matrix(rng, len(t), m2, cplx, t) if rng.integers(2) else known_sv_matrix(rng, m2, len(t), cplx, t)
-            got = _safe(majorizes, M, B.to_np())
+            got = _psafe(ctx, prng, desc, majorizes, M, B.to_np(force_complex=bool(prng.integers(2))))     # mixed real / complex pairs
             mo = ctx.lean().ask("c16_majorizes", {"a": [_rj(x) for x in s], "b": [_rj(x) for x in t]})
             ctx.case({"op": "majorizes/matrix", "A": A.key(), "B": B.key()}, True, f"ops/majorizes/matrix/{mo['v']}")
             if got[0] != "ok" or bool(got[1]) != mo["v"]:
@@ -1968,9 +2030,9 @@ def run_norms(ctx, count):
 
 def check_spark(ctx, A: QM, label):
     M = A.to_np(allow_int=bool(ctx.rng.integers(2)))
-    out = _safe(spark, M)
-    mo = ctx.lean().ask("c16_spark", {"A": A.to_json()})
     desc = {"op": "spark", "A": A.key(), "label": label}
+    out = _psafe(ctx, case_rng("c16/spark", desc["A"]), desc, spark, M)
+    mo = ctx.lean().ask("c16_spark", {"A": A.to_json()})
     ctx.case(desc, min(A.shape) >= 2, f"ops/spark/={mo['spark']}")
     if out[0] != "ok" or int(out[1]) != mo["spark"]:
         viol(ctx, "spark differs from the smallest number of linearly dependent columns", "spark", desc, str(out)[:100], mo, "spark (exact rank over Q[i])")
@@ -2009,7 +2071,7 @@ def check_commutant(ctx, gens, label):
     n = gens[0].shape[0]
     arrs = [g.to_np() for g in gens]
     arg = arrs[0] if len(arrs) == 1 and ctx.rng.integers(2) else list(arrs)
-    out = _safe(commutant, arg)
+    out = _psafe(ctx, case_rng("c16/commutant", [g.key() for g in gens], isinstance(arg, list)), {"op": "commutant", "gens": [g.key() for g in gens]}, commutant, arg)
     mo = ctx.lean().ask("c16_commutant_dim", {"dim": n, "gens": [g.to_json() for g in gens]})
     # verified certificate of the exact dimension (rank / nullity of the stacked system)
     I = QM.eye(n)
